@@ -18,6 +18,13 @@ int c_aggregate(int nval, int operator, int maxnan, int * aggindex,
     /* In case NAN is not defined */
     nan = 1./zero * zero;
 
+    /* Nothing to aggregate: no index to read, no output to write */
+    if(nval < 1)
+    {
+        iend[0] = 0;
+        return 0;
+    }
+
     /* Initialise */
     iaprev = aggindex[0];
     ia = 0;
@@ -145,6 +152,10 @@ int c_flathomogen(int nval, int maxnan, int * aggindex,
 
     /* In case NAN is not defined */
     nan = zero/zero;
+
+    /* Nothing to homogenise: no index to read */
+    if(nval < 1)
+        return 0;
 
     /* Initialise */
     iaprev = aggindex[0];
